@@ -73,8 +73,45 @@ func resultType(c *ssa.CallCommon) types.Type {
 	return sig.Results()
 }
 
-// doCall dispatches a call with already evaluated arguments.
+// doCall dispatches a call and binds ghost names declared for static callee results.
 func (fc *FnCtx) doCall(fr *Frame, st *State, instr ssa.Instruction, c *ssa.CallCommon, fnVal Val, args []Val) Val {
+	res := fc.doCallInner(fr, st, instr, c, fnVal, args)
+	if c.IsInvoke() || len(fr.ghostRes) == 0 {
+		return res
+	}
+	if cv, ok := fnVal.(*ClosureVal); ok && cv.Fn != nil {
+		name := cv.Fn.Name()
+		if i := strings.Index(name, "["); i >= 0 {
+			name = name[:i]
+		}
+		key0 := "call:" + name
+		ord := fr.invokeN[key0]
+		fr.invokeN[key0]++
+		for idx := 0; idx < 4; idx++ {
+			key := fmt.Sprintf("%s#%d/%d", key0, ord, idx)
+			g, ok := fr.ghostRes[key]
+			if !ok {
+				continue
+			}
+			v := res
+			if tv, isT := res.(*TupleVal); isT {
+				if idx >= len(tv.Elems) {
+					continue
+				}
+				v = tv.Elems[idx]
+			} else if idx != 0 {
+				continue
+			}
+			if vt, isTerm := v.(Term); isTerm && vt.Sort == g.Sort {
+				fc.assume(st, tEq(g, vt))
+			}
+		}
+	}
+	return res
+}
+
+// doCallInner dispatches a call with already evaluated arguments.
+func (fc *FnCtx) doCallInner(fr *Frame, st *State, instr ssa.Instruction, c *ssa.CallCommon, fnVal Val, args []Val) Val {
 	rt := resultType(c)
 	havocRes := func(prefix string) Val {
 		if rt == nil {
@@ -266,7 +303,11 @@ func (fc *FnCtx) applyContract(fr *Frame, st *State, instr ssa.Instruction, spec
 	env := fc.calleeEnv(spec, callee, sig, args)
 	// results of the callee's internal calls named by its contract: unknown values here
 	for _, g := range spec.Ghosts {
-		gv := fc.fresh("cg_"+g.Name, SErr)
+		gs := SErr
+		if g.Type != "" {
+			gs = specSort(g.Type)
+		}
+		gv := fc.fresh("cg_"+g.Name, gs)
 		fc.declareSentinels()
 		fc.assume(st, fc.typeFact(st, gv, nil))
 		env.bind(g.Name, gv, nil)
